@@ -171,7 +171,8 @@ pub fn stress(w: &mut CaseWriter, rng: &mut Rng, tier: &str) {
     let n = if tier == "thorough" { 600 } else { 75 };
     for k in 0..n {
         let h = rng.range(1, 530) as i32;
-        let norb = if rng.chance(0.5) { 1 } else { 2 };
+        // (one general orbit alone often has more symmetry than its Hall group: the generator would redraw for ever)
+        let norb = 2;
         let base = crystal(h, rng, norb);
         if base.cell.num_atoms() > 96 {
             continue;
@@ -198,6 +199,9 @@ pub fn stress(w: &mut CaseWriter, rng: &mut Rng, tier: &str) {
             let i = rng.range(0, c.cell.num_atoms() as i64 - 1) as usize;
             let d = sp * *rng.pick(&[0.5, 0.9, 1.1, 2.0, 5.0]) / lmin;
             c.cell.positions[i][rng.range(0, 2) as usize] += d;
+        }
+        if std::env::var("VERIF_LOG").is_ok() {
+            eprintln!("stress x{}h{}k{} n={} sp={}", kind, h, k, c.cell.num_atoms(), sp);
         }
         dump_s123(w, &format!("x{}h{}k{}", kind, h, k), &c.cell, sp, at);
     }
